@@ -29,6 +29,8 @@ import GluonModel.GcMachine
 import GluonModel.Proofs.GcHeap
 import GluonModel.Proofs.GcHeapTotal
 import GluonModel.Proofs.GcMachine
+import GluonModel.Proofs.GcIdem
+import GluonModel.Proofs.GcPromote
 
 namespace GluonModel.Props.C05
 open GluonModel.GcHeap
@@ -159,6 +161,43 @@ theorem stale_mark_bit_breaks_safety_fails :
     freedBy staleDemo [0] = some [] := by
   decide
 
+/-! ### Transparency: how often collections run does not matter -/
+
+/-- A collection is idempotent: collecting the same heap again with nothing done in between frees
+    nothing more and changes nothing. (`ThreadObjsMarked`: every `Thread` object of the swept heaps
+    is itself marked — it sits in its parent's child list.) No invariant is needed. -/
+theorem collect_idempotent {s s1 s2 : State} {t : HeapId} (hwf : WF s)
+    (hT : ThreadObjsMarked s t) (h1 : collect s t = some s1) (h2 : collect s1 t = some s2) :
+    ∀ p, s2.obj p = s1.obj p :=
+  collect_idempotent' hwf hT h1 h2
+
+/-! ### Promotion of module values WITHOUT mutable cells is harmless
+
+`reachable_inv` excluded `promote` altogether. In fact only the promotion of a value with a mutable
+cell below it breaks the invariant (D1): for histories in which every promoted value is cell-free at
+the time of its promotion (`HistOK`) the invariant, and the safety of every collection, still hold. -/
+
+theorem promote_cellfree_keeps_invariant {fixed : Bool} {s s' : State} {thr : HeapId} {v r : Nat}
+    (g : Good fixed s) (hlive : ∃ o, s.obj v = some o) (hok : PromoteOK fixed s v)
+    (h : promoteGlobal s thr fixed v = some (s', r)) : Good fixed s' :=
+  good_promote g hlive hok h
+
+theorem reachable_inv_cellfree_promotion (fixed : Bool) (ops : List Op)
+    (h : HistOK fixed init ops) :
+    WF (run fixed init ops) ∧ Inv (run fixed init ops) ∧ Homed (run fixed init ops) ∧
+      NoDangling (run fixed init ops) :=
+  let g := run_good' ops init (init_good fixed) h
+  ⟨g.wf, g.inv, g.homed, g.nd⟩
+
+theorem reachable_collect_safe_cellfree_promotion (fixed : Bool) (ops : List Op)
+    (h : HistOK fixed init ops) (t : HeapId) (ht : t ≠ []) :
+    ∃ s', collect (run fixed init ops) t = some s' ∧
+      ∀ p op, (run fixed init ops).obj p = some op →
+        Reach (run fixed init ops) (AllRoots (run fixed init ops)) p → s'.obj p = some op :=
+  let g := run_good' ops init (init_good fixed) h
+  let ⟨s', hs'⟩ := collect_total' _ t g.wf
+  ⟨s', hs', fun _ _ hop hr => collect_safe' g.wf g.inv g.homed g.grootsGlobal ht hs' hop hr⟩
+
 /-- The history of D1 on the machine: a thread builds a cell, the module value is promoted, the
     thread stores a fresh value into the promoted cell and drops its own handle to the value. -/
 def opsD1 : List Op :=
@@ -255,5 +294,45 @@ def demo : State := State.ofList [
 example : freedBy demo [0] = some [5, 6] := by decide
 example : freedBy demo [0, 0] = some [5] := by decide
 example : mark demo [0, 0] = some [4, 3] := by decide
+
+/-- idempotence on `demo`: the second collection frees nothing -/
+example : (collect demo [0]).bind (fun s1 => freedBy s1 [0]) = some [] := by decide
+example : (collect demo [0, 0]).bind (fun s1 => freedBy s1 [0, 0]) = some [] := by decide
+
+/-- the hypothesis of `collect_idempotent` holds on `demo`: its only inner `Thread` object (1) is in
+    the root thread's child list -/
+example : ThreadObjsMarked demo [0] := by
+  intro i o ho hk hin
+  simp only [demo, State.ofList] at ho
+  match i, ho with
+  | 0, ho => simp at ho; subst ho; simp at hin
+  | 1, ho =>
+    refine ReachNS.root (mem_rootsOf.mpr ⟨0, ⟨[], [0], .thread, [1, 2]⟩, by decide, by decide, rfl,
+      List.prefix_refl _, by simp⟩) (by decide)
+  | 2, ho => simp at ho; subst ho; simp at hk
+  | 3, ho => simp at ho; subst ho; simp at hk
+  | 4, ho => simp at ho; subst ho; simp at hk
+  | 5, ho => simp at ho; subst ho; simp at hk
+  | 6, ho => simp at ho; subst ho; simp at hk
+  | n + 7, ho => simp at ho
+
+/-- a history with a cell-free promotion satisfies `HistOK`: the promoted record 1 has no cell below -/
+example : HistOK false init [.alloc [0] .plain [], .promote [0] 1, .collect [0]] := by
+  refine ⟨trivial, ?_, trivial, trivial⟩
+  intro p o hp ho
+  have hleaf : ∀ q, CopyReach (step false init (.alloc [0] .plain [])) (some 0) 1 q → q = 1 := by
+    intro q hq
+    induction hq with
+    | root => rfl
+    | @step q p o _ ho _ he ih =>
+      subst ih
+      have : (step false init (.alloc [0] .plain [])).obj 1 = some ⟨[0], [0], .plain, []⟩ := by decide
+      rw [this] at ho; cases ho
+      simp at he
+  have := hleaf p hp
+  subst this
+  have h1 : (step false init (.alloc [0] .plain [])).obj 1 = some ⟨[0], [0], .plain, []⟩ := by decide
+  rw [h1] at ho; cases ho
+  exact ⟨by simp, by simp⟩
 
 end GluonModel.Props.C05
